@@ -79,28 +79,71 @@ def spelling(rng, d, top=True):
     return G.valid_text(rng, d, top=False)      # text, dna
 
 
-def gen_field(rng):
-    r = rng.random()
-    fc = G._focus_classes()
-    if fc and rng.random() < 0.5:
-        spec = ["src", rng.choice(fc)]
-    elif r < 0.85:
-        spec = ["src", rng.choice(G.SRC_CLASSES + ["StringIntegerOrFloatColumn", "MafColumnRecord"])]
-    else:
-        spec = ["mix", ["src", "RequireNullValue"], ["src", rng.choice(G.MASKABLE)]]
+EXTRA_CLASSES = ["StringIntegerOrFloatColumn", "MafColumnRecord", "MafCustomColumnRecord", "EnumColumn", "SequenceOfValuesColumn",
+                 "RequireNullValue", "_BuildStringColumn"]
+ALL_CLASSES = G.SRC_CLASSES + EXTRA_CLASSES
+OTHER_TEXTS = ["1", "+1", "1_0", "1.5", "x", " 7", "1e5", "nan", "", "abc", "0x10", "é", "007", "-0", "inf", "1e400", "None", "a;b"]
+
+
+def field_case(rng, spec, stream=None):
     d = G.descr_of_spec(spec)
-    s = rng.random()
     if d is None:
-        t = rng.choice(["1", "+1", "1_0", "1.5", "x", " 7", "1e5", "nan", "", "abc", "0x10", "é"])
-        return {"kind": "field", "cls": spec, "text": t, "stream": "spelling"}
-    if s < 0.7:
-        return {"kind": "field", "cls": spec, "text": spelling(rng, d), "stream": "spelling"}
+        return {"kind": "field", "cls": spec, "text": rng.choice(OTHER_TEXTS), "stream": stream or "spelling"}
+    s = rng.random()
+    if stream == "class-sweep" or s < 0.7:
+        return {"kind": "field", "cls": spec, "text": spelling(rng, d), "stream": stream or "spelling"}
     if s < 0.85:
-        return {"kind": "field", "cls": spec, "text": G.kind_boundary(rng, d) if rng.random() < 0.6 else rng.choice(G.BOUNDARY),
+        return {"kind": "field", "cls": spec, "text": G.kind_boundary(rng, d) if rng.random() < 0.5 else rng.choice(G.BOUNDARY),
                 "stream": "boundary"}
     if s < 0.93:
         return {"kind": "field", "cls": spec, "text": G.defect(rng, spelling(rng, d)), "stream": "defect"}
     return {"kind": "field", "cls": spec, "text": G.some_text(rng, d, "adversarial"), "stream": "adversarial"}
+
+
+def gen_field(rng):
+    r = rng.random()
+    if r < 0.8:
+        spec = ["src", rng.choice(ALL_CLASSES)]
+    elif r < 0.92:
+        spec = ["mix", ["src", "RequireNullValue"], ["src", rng.choice(G.MASKABLE)]]
+    else:
+        # the theorem covers RequireNullValue mixed over EVERY column class, not only those a shipped scheme masks
+        spec = ["mix", ["src", "RequireNullValue"], ["src", rng.choice([c for c in ALL_CLASSES if c != "RequireNullValue"])]]
+    return field_case(rng, spec)
+
+
+def class_sweep(rng):
+    """every class (and every RequireNullValue mix) meets, in every run: each of its null spellings, for enumerations
+    every member by value and by name (with case variants under the capitalising columns), and a handful of
+    spellings of its family - a sweep over (class, spelling family), not a sample"""
+    out = []
+
+    def add(spec, t):
+        out.append({"kind": "field", "cls": spec, "text": t, "stream": "class-sweep"})
+
+    for name in ALL_CLASSES:
+        for spec in (["src", name], ["mix", ["src", "RequireNullValue"], ["src", name]]):
+            if spec[0] == "mix" and name == "RequireNullValue":
+                continue
+            d = G.descr_of_spec(spec)
+            if d is None:
+                for t in rng.sample(OTHER_TEXTS, 4 if spec[0] == "src" else 2):
+                    add(spec, t)
+                continue
+            base = d["base"] if d["k"] == "mustnull" else d
+            for t in SP.null_keys(d):
+                add(spec, t)
+            if spec[0] == "mix":
+                add(spec, spelling(rng, base))
+                continue
+            el = base["elem"] if base["k"] == "seq" else base
+            if el["k"] == "enum":
+                for n, v in SP.spec()["enums"][el["enum"]]:
+                    for t in ([v, n] + ([rng.choice([v.lower(), v.upper(), n.lower(), n.upper(), n.swapcase()])] if el.get("cap") else [])):
+                        add(spec, t if base["k"] != "seq" else rng.choice([t, t + ";" + v, v + ";" + t]))
+            for _ in range(6):
+                add(spec, spelling(rng, d))
+    return out
 
 
 def gen_line(rng):
@@ -125,7 +168,14 @@ def gen_line(rng):
 
 
 def gen_cases(rng, n, line_share=0.1):
-    return [gen_line(rng) if rng.random() < line_share else gen_field(rng) for _ in range(n)]
+    out = []
+    if n >= 1000:
+        out = class_sweep(rng)
+        for c in G.kind_sweep(rng, modes=False):        # colgen's (kind, boundary text) sweep, Strict, through the codec too
+            out.append(dict(c, codec=True))
+    for _ in range(max(0, n - len(out))):
+        out.append(gen_line(rng) if rng.random() < line_share else gen_field(rng))
+    return out
 
 
 def corpus_cases():
@@ -228,6 +278,15 @@ def run_impl(case):
     if case["kind"] == "field":
         t = case["text"]
         ex["laws"] = _float_law_failures([t, t.capitalize()] + t.split(";"))
+        # the other way to a null value: build_nullable (first null key) must give a null that prints as the preferred spelling
+        try:
+            cls = H.cls_of_spec(case["cls"])
+            if hasattr(cls, "build_nullable") and cls.is_nullable():
+                n = cls.build_nullable("k")
+                ex["build_nullable"] = {"value": H.enc_value(n.value), "is_null": bool(n.is_null()), "str": G._str_of(n),
+                                        "errors": H.enc_errors(n.validate(), ["k"])}
+        except Exception as e:
+            ex["build_nullable"] = {"raise": type(e).__name__}
     else:
         ex["laws"] = _float_law_failures(case["fields"])
         if case.get("codec"):
@@ -259,9 +318,18 @@ def oracle_field(case, obs):
     o, ex = obs["cmp"], obs.get("extra", {})
     for law in ex.get("laws", []):
         out.append("host-oracle-law-broken | %s" % law)
+    name = _cls_name(case["cls"])
+    if ex.get("history_dependent"):
+        out.append("parse-depends-on-history/%s | %r parsed again after the caller appended to an exposed list: %s" % (name, case["text"], ex["history_dependent"]))
+    bn = ex.get("build_nullable")
+    d0 = G.descr_of_spec(case["cls"])
+    if bn is not None and d0 is not None:
+        if "raise" in bn:
+            out.append("build_nullable-raises/%s | %s" % (name, bn["raise"]))
+        elif not bn["is_null"] or bn["errors"] or bn["str"] != ["ok", SP.preferred_null(d0)]:
+            out.append("null-not-preferred-spelling/%s | build_nullable of %s gives %s" % (d0["k"], name, bn))
     if o["build"][0] != "ok" or o.get("errors"):
         return out                              # not accepted: C04 says nothing
-    name = _cls_name(case["cls"])
     where = "%s %r" % (name, case["text"])
     v = o["build"][1]
     if o["str"][0] != "ok":
@@ -311,6 +379,8 @@ def oracle_line(case, obs):
     for law in ex.get("laws", []):
         out.append("host-oracle-law-broken | %s" % law)
     cols = SP.layout(case["annot"])["columns"]
+    if ex.get("history_dependent"):
+        out.append("parse-depends-on-history/line | parsed again after the caller appended to an exposed list: %s" % (ex["history_dependent"],))
     accepted = "raise" not in o and not o.get("errors") and o.get("len") == len(cols)
     cx = ex.get("codec")
     if cx is not None and case["mode"] == 1 and bool(cx.get("accepted")) != accepted:
